@@ -28,7 +28,9 @@ _base.BaseObject.__init__ = _recording_init
 
 
 class VSub(Vertex):
-    pass
+    """a user subclass; like many it has a friendly __str__ of its own (its repr stays the default one)"""
+    def __str__(self):
+        return "a vertex of the harness"
 
 
 class FalsyV(VSub):
@@ -47,6 +49,16 @@ class HashV(VSub):
         return hash(self.uid)
 
 
+class EqV(VSub):
+    """a vertex class with value semantics under which every two instances compare equal (legal for the identity-pure
+    queries only: neighbors() names the far end of a link by identity; structure operations and traversals use `in`)"""
+    def __eq__(self, other):
+        return isinstance(other, EqV)
+
+    def __hash__(self):
+        return 17
+
+
 def _local_vertex_class():
     class LocalV(VSub):
         """a vertex class defined inside a function, written the way the library's own documentation shows
@@ -58,6 +70,20 @@ def _local_vertex_class():
 
 
 LocalV = _local_vertex_class()
+
+
+def _local_abc_vertex_class():
+    import abc
+
+    class LocalAbcV(VSub, metaclass=abc.ABCMeta):
+        """as LocalV, with a metaclass that is not `type` itself (abc.ABCMeta: the usual way of declaring an abstract vertex
+        base class)"""
+        def __init__(self, *a, **k):
+            super().__init__(*a, **k)
+    return LocalAbcV
+
+
+LocalAbcV = _local_abc_vertex_class()
 
 
 class MainV(VSub):
@@ -98,6 +124,8 @@ CLS_KIND[FalsyV] = "KVertexSub"
 CLS_KIND[HashV] = "KVertexSub"
 CLS_KIND[LocalV] = "KVertexSub"
 CLS_KIND[MainV] = "KVertexSub"
+CLS_KIND[EqV] = "KVertexSub"
+CLS_KIND[LocalAbcV] = "KVertexSub"
 # class choice of a generated NV op: plain Vertex, a subclass, a subclass whose instances are FALSY (legal: the library
 # must test `is None`, never truthiness)
 NV_CLASSES = [False, False, False, False, False, True, True, 2, 2, 2]
@@ -108,6 +136,47 @@ EXN = {"TypeError", "ValueError", "IndexError", "KeyError", "AttributeError", "N
 
 class CaseInvalid(Exception):
     pass
+
+
+_COLLISION = []
+
+
+def collision_names():
+    """attribute names a user might pick that COLLIDE with names the library itself uses: every identifier-like string literal
+    in the library's sources (a read-only operation that tags, pops or rewrites such an attribute on
+    the user's vertices changes the graph).  Read from the tree under test on first use."""
+    if not _COLLISION:
+        import ast
+        import re
+        from pathlib import Path
+        import edgegraph
+        names = set()
+        for f in sorted(Path(edgegraph.__file__).parent.rglob("*.py")):
+            try:
+                tree = ast.parse(f.read_text())
+            except SyntaxError:
+                continue
+            for n in ast.walk(tree):
+                if isinstance(n, ast.Constant) and isinstance(n.value, str) and re.fullmatch(r"[A-Za-z_]\w{2,40}", n.value):
+                    names.add(n.value)
+        _COLLISION.extend(sorted(names))
+    return list(_COLLISION)
+
+
+def decorate_with_collisions(w, every=2):
+    """give every `every`-th vertex an attribute (value: a marker string) under each colliding name its class does not define"""
+    n = 0
+    for i, o in enumerate(w.objs):
+        if kind_of(o) in VERTEX_KINDS and i % every == 0:
+            for name in collision_names():
+                if hasattr(type(o), name) or name in vars(o):
+                    continue
+                try:
+                    setattr(o, name, f"user value {name}")
+                    n += 1
+                except Exception:  # noqa: BLE001
+                    pass
+    return n
 
 
 WHITELISTS = [None, {}, {Vertex: {Vertex: DirectedEdge}}, {Vertex: {Vertex: UnDirectedEdge, Universe: DirectedEdge}, Universe: {}}]
@@ -229,7 +298,7 @@ class World:
         if t == "NV":
             us = [g(i, U) for i in op[2]]
             ls = [g(i, L) for i in op[3]]
-            cls = MainV if op[1] == 5 else LocalV if op[1] == 4 else HashV if op[1] == 3 else FalsyV if op[1] == 2 else VSub if op[1] else Vertex
+            cls = LocalAbcV if op[1] == 7 else EqV if op[1] == 6 else MainV if op[1] == 5 else LocalV if op[1] == 4 else HashV if op[1] == 3 else FalsyV if op[1] == 2 else VSub if op[1] else Vertex
             kw = {}
             if us:
                 kw["universes"] = self._container(us)
@@ -506,6 +575,7 @@ def gen_history(rng, weights, nops, seed_ops=None):
         wts = [weights[t] for t in tags]
         tries = 0
         share = {}
+        shared_uid = rng.random() < 0.3
         while len(ops) < nops and tries < nops * 20:
             tries += 1
             t = rng.choices(tags, wts)[0]
@@ -527,13 +597,15 @@ def gen_history(rng, weights, nops, seed_ops=None):
             op = None
             if t == "NV":
                 if len(vs) < 6:
-                    k = rng.choice([0, 0, 1, 2]) if us else 0
+                    k = rng.choice([0, 0, 1, 2, 2, 3, 4]) if us else 0      # with repeats, adjacent or not: [u1, u2, u1]
                     uu = [pick(us) for _ in range(k)]
                     prev = [o[2] for o in ops if o[0] == "NV" and o[2]]
                     if prev and rng.random() < 0.4:
                         uu = list(prev[-1])        # the same universes= contents as an earlier vertex (callers reuse one list)
                     ll = [pick(ls)] if ls and rng.random() < 0.15 else []
                     op = ["NV", rng.choice(NV_CLASSES), uu, ll]
+                    if shared_uid and rng.random() < 0.5:
+                        op.append(7000 + rng.randrange(2))     # several vertices carry one caller-supplied uid (never checked by the library)
             elif t == "NU":
                 if len(us) < 3:
                     k = rng.choice([0, 0, 1, 2, 3]) if vs else 0
